@@ -75,12 +75,25 @@ pub fn check_case(ctx: &mut Ctx, src: &str, stdin: &[u8], origin: &str) {
     let tree = conv::program(&prog);
     let model = refi::run(&tree, stdin, &refi::Budget { steps: 5_000, call_depth: 64 });
     let known = matches!(model.outcome, RefOutcome::Ok | RefOutcome::Error(_));
-    if let RefOutcome::OverBudget(_) = model.outcome {
-        // the model could follow it and it needs more than the budget: outside the quantifier
+    // Programs the model sees leaving the budget (huge index, huge repeat count, too many steps)
+    // are still run: rrss may well answer with a runtime error, and it must not crash doing so.
+    // Whatever resource-class ending they have (allocation failure, CPU limit, fuel) is inconclusive.
+    let over_budget = matches!(model.outcome, RefOutcome::OverBudget(_));
+    if over_budget && ctx.miri {
+        // no process isolation under Miri: these stay out there
         ctx.count("discarded_over_budget");
         return;
     }
-    let fuel = if known { model.steps * 8 + 1000 } else { 20_000 };
+    if over_budget {
+        ctx.count("programs_over_the_models_budget_run_anyway");
+    }
+    let fuel = if known {
+        model.steps * 8 + 1000
+    } else if ctx.miri {
+        300
+    } else {
+        20_000
+    };
     ctx.eval();
     if known {
         ctx.count("programs_model_follows_to_the_end");
@@ -92,7 +105,10 @@ pub fn check_case(ctx: &mut Ctx, src: &str, stdin: &[u8], origin: &str) {
         exec_report(&prog, stdin, fuel, &mut report);
         (Some(0), None)
     } else {
-        let r = mon::run_in_child(CHILD_AS_LIMIT, CHILD_CPU_SECS, |w| exec_report(&prog, stdin, fuel, w));
+        // (programs already known to leave the budget get a small heap and little CPU: they are only
+        // run to see that an early runtime error, if rrss answers with one, does not crash)
+        let (heap, cpu) = if over_budget { ((2u64 << 30) + (192 << 20), 2) } else { (CHILD_AS_LIMIT, CHILD_CPU_SECS) };
+        let r = mon::run_in_child(heap, cpu, |w| exec_report(&prog, stdin, fuel, w));
         report = r.output;
         (r.exit_code, r.signal)
     };
@@ -219,6 +235,9 @@ const TEMPLATES: &[&str] = &[
     "say -{X}", "say not {X}", "say {X} is {X}", "say {X} < {X}", "say {X} and {X}", "put {X} into it", "say it", "it is 5",
     "{X} is (c)'s cool", "{X} is , - b", "{X} is a. -b", "rock {X} like (c)'s", "{X} is 's", "let {X} at 0 at 1 at 2 be 3", "say {X} at 0 at 1",
     "cut {X} into {X}", "join {X} into {X} at 0", "turn up {X} at 0", "roll {X} at 0", "rock {X} at 0 with 1", "rock {X} at {V}", "let {X} be 1, 2",
+    "{X} is a bb ccc dddd eeeee ffffff ggggggg hhhhhhhh iiiiiiiii jjjjjjjjjj k ll mmm\nsay {X}",
+    "rock {X} like one two three four five six seven eight nine ten eleven twelve. thirteen fourteen\nsay {X} at 0",
+    "{X} is . a bb ccc\nsay {X}", "{X} is a. bb ccc dddd eeeee ffffff ggggggg hhhhhhhh iiiiiiiii jjjjjjjjjj kkkkkkkkkkk llllllllllll\nsay {X}",
     "put {X} plus {X} into {X}", "knock it down", "rock it", "roll it", "cut it", "cast it with {V}",
 ];
 
